@@ -6,6 +6,7 @@ use vstd::sim::Rng;
 pub mod beans;
 pub mod coroutine;
 pub mod queues;
+pub mod sched;
 
 #[derive(Clone, Copy, Debug, PartialEq, Eq)]
 pub enum Tier {
@@ -35,6 +36,7 @@ pub fn all() -> Vec<&'static Scenario> {
     v.extend(coroutine::SCENARIOS.iter());
     v.push(&coroutine::LOCAL_SCENARIO);
     v.push(&beans::SCENARIO);
+    v.push(&sched::SCENARIO);
     v
 }
 
